@@ -15,7 +15,8 @@ class References:
     # placeholder link each; a link whose overlap is compatible with several
     # of them (an unspecified overlap) supports all those paths
     for other in list(self.from_segment.dovetails):
-      if other is not self and other.virtual and \
+      # (a link from a segment to itself is listed on both of its ends)
+      if other is not self and other.virtual and other.is_connected() and \
           other.record_type == "L" and \
           other.is_compatible(self.oriented_from, self.oriented_to,
                               self.overlap, True):
